@@ -141,20 +141,20 @@ Proof. intros H. unfold holder, value_owner. rewrite H. reflexivity. Qed.
 (** Consent from the two checks every metadata message runs: the signer check on the holder and
     the send restriction with the signers as transfer agents. *)
 Lemma consent_from_checks s o k sg existing proposed agents used h to :
-  signers_of o = sg -> kind_of o = Some k ->
+  signers_of o = sg -> kind_of o = Some k -> k <> KAddData ->
   vo_signers s existing proposed sg k = Some (agents, used) ->
   In h existing -> proposed <> Some h ->
   restrict (markers s) h to agents = true ->
   consent s o h.
 Proof.
-  intros Hsg Hk Hv Hin Hne Hr.
+  intros Hsg Hk Hka Hv Hin Hne Hr.
   destruct (vo_signers_spec _ _ _ _ _ _ _ _ Hv Hin Hne) as (Ha & [H1|[H2|(g & Hg & Hgr)]]).
   - left. rewrite Hsg. eapply effective_signers_incl. rewrite <- Ha. exact H1.
   - right. right. unfold is_marker in H2. destruct (marker_of s h) as [m|] eqn:Em; [|discriminate].
     destruct (restrict_from _ _ _ _ _ Hr Em) as (g & Hg & Hw).
     exists m, g. split; [reflexivity|]. split; [|exact Hw].
     rewrite Hsg. eapply effective_signers_incl. rewrite <- Ha. exact Hg.
-  - right. left. exists k, g. split; [exact Hk|]. split; [|exact Hgr].
+  - right. left. exists k, g. split; [exact Hk|]. split; [|rewrite <- (authz_plain s h g k Hka); exact Hgr].
     rewrite Hsg. eapply effective_signers_incl. rewrite <- Ha. exact Hg.
 Qed.
 
@@ -181,16 +181,15 @@ Proof.
 Qed.
 
 (** ** MsgWriteScope *)
-Lemma step_write_good s sg d owners spec data vo s' :
-  Inv s -> step_write s sg d owners spec data vo = Some s' ->
-  good_step s (OWrite sg d owners spec data vo) s'.
+Lemma step_write_good s sg d parties spec data rollup vo s' :
+  Inv s -> step_write s sg d parties spec data rollup vo = Some s' ->
+  good_step s (OWrite sg d parties spec data rollup vo) s'.
 Proof.
   intros (HB & HT). unfold step_write.
-  destruct (is_nil sg || is_nil owners || has_dup owners) eqn:Eb; [discriminate|].
+  destruct (is_nil sg || negb (parties_basic parties rollup)) eqn:Eb; [discriminate|].
   assert (Hsg : sg <> []).
-  { apply is_nil_false. apply orb_false_elim in Eb. destruct Eb as (Eb & _).
-    apply orb_false_elim in Eb. apply Eb. }
-  set (prop := {| sc_owners := owners; sc_spec := spec; sc_data := data |}).
+  { apply is_nil_false. apply orb_false_elim in Eb. apply Eb. }
+  set (prop := {| sc_parties := parties; sc_spec := spec; sc_data := data; sc_rollup := rollup |}).
   destruct (match scope_of s d, vo with Some _, Some _ => denom_owner (tok s d) | _, _ => Some None end)
     as [cur|] eqn:Ecur; [|discriminate].
   match goal with |- match ?P with _ => _ end = _ -> _ => destruct P as [pused|]; [|discriminate] end.
@@ -217,6 +216,7 @@ Proof.
       { intros [= ->]. apply Hch. apply holder_single. rewrite Htok'. exact Ht. }
       rewrite (Hcur h Hh) in Ev. cbn [opt_list] in Ev.
       eapply (consent_from_checks s _ KWrite sg [h] (Some p) agents used h p); try reflexivity; try exact Ev.
+      * discriminate.
       * left. reflexivity.
       * exact Hp.
       * assert (Hvo : value_owner s d = Some h) by exact Hh.
@@ -254,7 +254,7 @@ Proof.
   intros (HB & HT). unfold step_delete.
   destruct (is_nil sg) eqn:Eb; [discriminate|].
   destruct (scope_of s d) as [e|] eqn:Esc; [|discriminate].
-  destruct (all_required_signed s (sc_owners e) sg KDelete) as [pused|]; [|discriminate].
+  destruct (existing_signed s e (get (specs s) (sc_spec e)) sg KDelete) as [pused|]; [|discriminate].
   destruct (denom_owner (tok s d)) as [cur|] eqn:Ecur; [|discriminate].
   destruct (vo_signers s (opt_list cur) None sg KDelete) as [[agents used]|] eqn:Ev; [|discriminate].
   destruct (negb (sc_check s (used ++ pused) KDelete true sg)); [discriminate|].
@@ -273,6 +273,7 @@ Proof.
     pose proof (holder_inv _ _ _ HB Hh) as Hth. rewrite Hth in Ecur. cbn in Ecur. injection Ecur as <-.
     cbn [opt_list] in Ev.
     eapply (consent_from_checks s _ KDelete sg [h] None agents used h MODULE); try reflexivity; try exact Ev.
+    + discriminate.
     + left. reflexivity.
     + discriminate.
     + assert (Hvo : value_owner s d = Some h) by exact Hh.
@@ -316,10 +317,10 @@ Proof.
 Qed.
 
 Lemma update_core_good s o sg links p k s' :
-  Inv s -> signers_of o = sg -> kind_of o = Some k -> sg <> [] ->
+  Inv s -> signers_of o = sg -> kind_of o = Some k -> k <> KAddData -> sg <> [] ->
   update_core s sg links p k = Some s' -> good_step s o s'.
 Proof.
-  intros (HB & HT) Hsg Hk Hne. unfold update_core.
+  intros (HB & HT) Hsg Hk Hka Hne. unfold update_core.
   destruct (is_nil links); [discriminate|].
   destruct (existsb (fun l => N.eqb (fst l) p) links); [discriminate|].
   set (froms := dedup (map fst links)).
@@ -356,7 +357,7 @@ Proof.
   intros HI. unfold step_update.
   destruct (is_nil sg || is_nil ds) eqn:Eb; [discriminate|].
   destruct (links_of s [] ds) as [links|]; [|discriminate]. intros H.
-  eapply update_core_good; [exact HI|reflexivity|reflexivity| |exact H].
+  eapply update_core_good; [exact HI|reflexivity|reflexivity|discriminate| |exact H].
   apply is_nil_false. apply orb_false_elim in Eb. apply Eb.
 Qed.
 
@@ -364,7 +365,7 @@ Lemma step_migrate_good s sg e p s' :
   Inv s -> step_migrate s sg e p = Some s' -> good_step s (OMigrate sg e p) s'.
 Proof.
   intros HI. unfold step_migrate. destruct (is_nil sg) eqn:Eb; [discriminate|]. intros H.
-  eapply update_core_good; [exact HI|reflexivity|reflexivity| |exact H].
+  eapply update_core_good; [exact HI|reflexivity|reflexivity|discriminate| |exact H].
   apply is_nil_false. exact Eb.
 Qed.
 
@@ -401,10 +402,30 @@ Proof.
   - intros d n Hn Hch. exfalso. apply Hch. rewrite <- Hn. symmetry. apply holder_same. apply Ht.
 Qed.
 
+(** ** MsgAddScopeDataAccess rewrites the scope record only *)
+Lemma step_adddata_good s sg d da s' :
+  Inv s -> step_adddata s sg d da = Some s' -> good_step s (OAddData sg d da) s'.
+Proof.
+  intros (HB & HT). unfold step_adddata.
+  destruct (is_nil sg || is_nil da); [discriminate|].
+  destruct (scope_of s d) as [e|] eqn:Esc; [|discriminate].
+  destruct (existsb (fun x => mem x (sc_data e)) da); [discriminate|].
+  match goal with |- (if ?c then _ else _) = _ -> _ => destruct c; [|discriminate] end.
+  intros [= <-].
+  assert (Htok' : forall d' v, tok (with_scopes s (put (scopes s) d v)) d' = tok s d') by reflexivity.
+  split; [split|split].
+  - intros d'. rewrite (sup_same s _ d') by reflexivity. rewrite Htok'. apply HB.
+  - intros d' Hne. rewrite scope_of_put. destruct (N.eqb_spec d' d) as [->|Hd]; [discriminate|].
+    apply HT. exact Hne.
+  - intros d' h Hh Hch. exfalso. apply Hch. rewrite <- Hh. apply holder_same. apply Htok'.
+  - intros d' n Hn Hch. exfalso. apply Hch. rewrite <- Hn. symmetry. apply holder_same. apply Htok'.
+Qed.
+
 Lemma step_opt_good s o s' : Inv s -> step_opt s o = Some s' -> good_step s o s'.
 Proof.
-  intros HI. destruct o as [sg d owners spec data vo|sg ds p|sg e p|sg d|from to d amt|a b k|a b k|a m]; cbn [step_opt].
+  intros HI. destruct o as [sg d parties spec data rollup vo|sg d da|sg ds p|sg e p|sg d|from to d amt|a b k|a b k|a m]; cbn [step_opt].
   - apply step_write_good; exact HI.
+  - apply step_adddata_good; exact HI.
   - apply step_update_good; exact HI.
   - apply step_migrate_good; exact HI.
   - intros H. apply (step_delete_spec _ _ _ _ HI H).
